@@ -108,8 +108,10 @@ def _gen_pruner(rng: random.Random, allow_patient: bool = True) -> dict | None:
         bc = 0 if (mx == "auto" or rng.random() < 0.85) else rng.choice([1, 2])
         return {"kind": k, "min_resource": rng.choice([1, 1, 2]), "max_resource": mx, "reduction_factor": rng.choice([2, 3, 3]), "bootstrap_count": bc}
     if k == "threshold":
-        lo: Any = rng.choice([None, -1.0, 0.0, 0.5])
-        hi: Any = rng.choice([1.0, 1.5, 2.0]) if lo is None else rng.choice([None, 1.0, 1.5, 2.0])
+        # bounds include exact zeros (float and int) and negative uppers: falsy / sign-dependent handling
+        lo: Any = rng.choice([None, -1.0, 0.0, 0.5, 0, -2.0])
+        his = [h for h in (1.0, 1.5, 2.0, 0.0, 0, -0.5, 1) if lo is None or h >= lo]
+        hi: Any = rng.choice(his) if lo is None else rng.choice([None] + his)
         return {"kind": k, "lower": lo, "upper": hi, "n_warmup_steps": rng.choice([0, 0, 1, 2, 3]), "interval_steps": rng.choice([1, 1, 2, 3])}
     if k == "patient":
         w = None if rng.random() < 0.3 else _gen_pruner(rng, allow_patient=False)
